@@ -19,7 +19,7 @@ func fmtGemfile() *format {
 			{Name: "rake", Version: "13.0.6", Tag: "plain"},
 			{Name: "nokogiri", Version: "1.13.3", W: "1.13.3-x86_64-linux", Tag: "platform-suffix"},
 			{Name: "eco-source", Version: "1.1.0.rc.1", Tag: "hyphen-name-prerelease"},
-			{Name: "a.b-c_d", Version: "0.0.1", Tag: "dots-underscore-name"},
+			{Name: "a.b-c_d", Version: "1", Tag: "dots-underscore-name-single-char-version"},
 			{Name: "rake1", Version: "3.0.6", Tag: "name+version-concat-equals-plain"},
 			{Name: "activesupport", Version: "7.0.8.1", Tag: "four-segments"},
 		},
